@@ -88,6 +88,10 @@ func c11Patches() []c11Patch {
 		{"two:delete+delete", &model.Change{Kind: "expr", Meta: xm, Imports: []model.Import{imp("-", "", "old/p"), imp("-", "", "old/r")}, Lines: model.L("-p.Foo(r.Wrap(x))", "+foo(x)")}, `"old/p";"old/r"`, "p", "p.Foo(r.Wrap(1))"},
 		{"two:delete+delete-second-used", &model.Change{Kind: "expr", Meta: xm, Imports: []model.Import{imp("-", "", "old/r"), imp("-", "", "old/p")}, Lines: model.L("-r.Foo(p.Wrap(x))", "+foo(x)")}, `"old/r";"old/p"`, "p", "r.Foo(p.Wrap(1))"},
 		{"two:metavar+metavar", &model.Change{Kind: "expr", Meta: []model.MetaVar{{Name: "x", Kind: "expression"}, {Name: "n", Kind: "identifier"}, {Name: "m", Kind: "identifier"}}, Imports: []model.Import{imp("-", "n", "old/p"), imp("+", "n", "new/p"), imp(" ", "m", "ctx/http")}, Lines: model.L("-n.Foo(x)", "+n.Bar(x, m.Client)")}, `"old/p";hh "ctx/http"`, "p", "n.Foo(hh.Client)"},
+		// blank and dot imports on a '-' line: nothing refers to them by name afterwards, they must be gone
+		{"delete-blank", &model.Change{Kind: "expr", Meta: xm, Imports: []model.Import{imp("-", "_", "old/p")}, Lines: model.L("-foo(x)", "+bar(x)")}, `_ "old/p"`, "p", "foo(1)"},
+		{"delete-dot", &model.Change{Kind: "expr", Meta: xm, Imports: []model.Import{imp("-", ".", "old/p")}, Lines: model.L("-Foo(x)", "+foo(x)")}, `. "old/p"`, "p", "Foo(1)"},
+		{"replace-blank", &model.Change{Kind: "expr", Meta: xm, Imports: []model.Import{imp("-", "_", "old/p"), imp("+", "_", "new/p")}, Lines: model.L("-foo(x)", "+bar(x)")}, `_ "old/p"`, "p", "foo(1)"},
 		{"add-v1-next-to-api", &model.Change{Kind: "expr", Meta: xm, Imports: []model.Import{imp(" ", "", "legacy/api"), imp("+", "", "new/api/v1")}, Lines: model.L("-api.Foo(x)", "+v1.Foo(x)")}, `"legacy/api"`, "api", "api.Foo(1)"},
 	}
 }
